@@ -159,7 +159,16 @@ const FQ_SUFFIX: [&str; 2] = [".fq", ".fastq"];
 fn c06_read(ctx: &mut Ctx, recs: &[Rec], ser: Ser, container: &str, bytes: &[u8], case_no: u64, argv: Vec<String>) {
     let suffix = if ser.is_fastq() { FQ_SUFFIX[(case_no % 2) as usize] } else { FA_SUFFIX[(case_no % 3) as usize] };
     let gz = container != "plain";
-    let path = format!("{}/c06{}{}", ctx.scratch, suffix, if gz { ".gz" } else { "" });
+    // every fifth case sits in a directory whose name ends like a sequence file of the OTHER format (and compression):
+    // only the file's own suffix decides
+    let dir = if case_no % 5 == 0 {
+        let d = format!("{}/c06dir{}{}", ctx.scratch, if ser.is_fastq() { ".fa" } else { ".fastq" }, if gz { "" } else { ".gz" });
+        std::fs::create_dir_all(&d).expect("input dir");
+        d
+    } else {
+        ctx.scratch.clone()
+    };
+    let path = format!("{}/c06{}{}", dir, suffix, if gz { ".gz" } else { "" });
     std::fs::write(&path, bytes).expect("write input");
     ctx.journal.note(|| format!("C06 {:?} ser={} container={} argv={:?}", recs, ser.code(), container, argv));
     ctx.rep.evaluations += 1;
@@ -348,7 +357,7 @@ fn c06_containers(ctx: &mut Ctx, recs: &[Rec], ser: Ser, case_no: &mut u64, full
         }
     }
     // an empty member at the end (every bgzip file ends with an empty EOF block) and at the beginning
-    for cont in ["gz-emptylast", "gz-emptyfirst", "gz-emptylast-l0"] {
+    for cont in ["gz-emptylast", "gz-emptyfirst", "gz-emptylast-l0", "gz-flags"] {
         *case_no += 1;
         let g = container_bytes(&text, &bounds, cont);
         c06_read(ctx, recs, ser, cont, &g, *case_no, base_argv(cont));
@@ -410,6 +419,18 @@ fn container_bytes(text: &[u8], bounds: &[usize], cont: &str) -> Vec<u8> {
     }
     if cont == "gz-emptyfirst" {
         return gz_members(&[&[], text], 6);
+    }
+    if cont == "gz-flags" {
+        // optional header fields of the gzip format (file name, comment, extra field), as gzip(1) and bgzip write them
+        let mut out = Vec::new();
+        let half = text.len() / 2;
+        for (i, p) in [&text[..half], &text[half..]].iter().enumerate() {
+            let b = flate2::GzBuilder::new().filename(format!("reads{}.fa", i)).comment("written by a sequencer > @ +").extra(vec![66, 67, 2, 0, 0x1b, 0]).mtime(1_700_000_000);
+            let mut e = b.write(Vec::new(), Compression::new(6));
+            e.write_all(p).unwrap();
+            out.extend_from_slice(&e.finish().unwrap());
+        }
+        return out;
     }
     if cont == "gz3-emptymid" {
         return gz_members(&[&text[..bounds[0]], &[], &text[bounds[0]..]], 6);
